@@ -15,6 +15,11 @@ half of the property applies:
                  the line `# INVALID`; a malformed tag text is never returned.
 
 NOT CHECKED
+  * values of a Python type foreign to the declared datatype (an int for a Z tag, a list for an f tag, a plain
+    list of integers for an H tag ...): only the natural pairs of NATURAL are probed.  (On the pinned tree
+    `set_datatype("xx","Z"); xx = 5; validate()` dies with a builtin TypeError from re.match -- seen, not judged);
+  * an integer given for an f tag when it is not exactly a float (10**30);
+  * the spelling chosen for a string given as the written form of a non-string datatype ("12" for an f tag);
   * levels 0/1: what writing an unrepresentable value produces (the property only speaks of level >= 2);
   * the empty string as a Z value, and the empty list as a *new* tag (J `[]` or B?); plain `bytes` for H;
   * NaN/Infinity inside JSON, non-string dict keys, tuples/sets (not JSON lists);
@@ -251,9 +256,19 @@ def default_datatype(spec, v):
     return None
 
 
+NATURAL = {
+    "i": {"int", "bool", "str", "hexstr"}, "f": {"float", "int", "str", "hexstr"}, "Z": {"str", "hexstr"}, "A": {"str", "hexstr"},
+    "J": {"json", "str", "emptylist"},
+    "B": {"ilist", "inarr", "flist", "fnarr", "mixnarr", "emptylist", "emptynarr", "boollist", "str", "json"},
+    "H": {"bytearr", "hexstr", "str"},
+}
+
+
 def representable(dt, spec, v):
     """True / False / None(debatable)"""
     t = spec["t"]
+    if t not in NATURAL[dt]:
+        return None
     if t == "bool" or t == "boollist":
         return False if dt in ("i", "f", "B") else (None if dt == "J" and t == "boollist" else False)
     if isinstance(v, str):
@@ -267,7 +282,10 @@ def representable(dt, spec, v):
         return isinstance(v, int)
     if dt == "f":
         if isinstance(v, int):
-            return True
+            try:
+                return True if float(v) == v else None
+            except OverflowError:
+                return None
         return isinstance(v, float) and math.isfinite(v)
     if dt in ("Z", "A"):
         return False
@@ -341,7 +359,8 @@ def one(F, case, ver, base, vlevel):
     dt = decl if decl else default_datatype(spec, v)
     if dt is None:
         return
-    lab = "%s%s.%s" % ("" if decl else "default-", dt, spec["t"])
+    lab = "%s.%s" % (dt, {"ilist": "ints", "inarr": "ints", "flist": "floats", "fnarr": "floats", "emptylist": "empty",
+                           "emptynarr": "empty", "hexstr": "str"}.get(spec["t"], spec["t"]))
     rep = representable(dt, spec, v)
     if rep is None:
         return
@@ -395,8 +414,6 @@ def one(F, case, ver, base, vlevel):
         if text not in whole.split("\t"):
             fail("str-differs-from-field_to_s", "str(line) is %r, field_to_s %r" % (whole, text))
             return
-        if isinstance(v, str) and dt not in ("Z", "A") and text[len(pre):] != v:
-            fail("written-differs", "string form %r written as %r" % (v, text))
         if dt == "B" and not isinstance(v, str) and all(isinstance(x, int) for x in v):
             want = int_subtype(list(v))
             if text[len(pre)] != want:
